@@ -337,7 +337,7 @@ const (
 // present, known fixed-size records have exactly their size, and on the p2p
 // path length <= 65535. While walking it restricts the domain of declared
 // lengths (see c10StreamLenMax; huge selects whether lengths >= 2^63 are in).
-func c10RefStream(b []byte, mode int, huge bool) (bool, []c10Rec) {
+func c10RefStream(b []byte, mode int, huge bool) (int, []c10Rec) {
 	p2p := mode == c10ModeDecodeP2P || mode == c10ModeParsedP2P
 	var recs []c10Rec
 	pos := 0
@@ -345,16 +345,22 @@ func c10RefStream(b []byte, mode int, huge bool) (bool, []c10Rec) {
 	var prev uint64
 	for pos < len(b) {
 		st, typ, n := c10RefBigSizeDec(b[pos:])
+		if st == c10VarNonMinimal {
+			return c10BadVarInt, nil
+		}
 		if st != c10VarOK {
-			return false, nil
+			return c10BadTruncated, nil
 		}
 		pos += n
 		if !first && typ <= prev {
-			return false, nil
+			return c10BadOrder, nil
 		}
 		st, l, n := c10RefBigSizeDec(b[pos:])
+		if st == c10VarNonMinimal {
+			return c10BadVarInt, nil
+		}
 		if st != c10VarOK {
-			return false, nil
+			return c10BadTruncated, nil
 		}
 		pos += n
 		// ---- explored domain of declared lengths ----
@@ -371,26 +377,36 @@ func c10RefStream(b []byte, mode int, huge bool) (bool, []c10Rec) {
 		}
 		// ---- predicate ----
 		if p2p && l > 65535 {
-			return false, nil
+			return c10BadTooLarge, nil
 		}
 		if typ == 1 && l != 8 {
-			return false, nil
+			return c10BadSize, nil
 		}
 		if typ == 5 && l != 2 {
-			return false, nil
+			return c10BadSize, nil
 		}
 		if l > uint64(len(b)-pos) {
-			return false, nil
+			return c10BadTruncated, nil
 		}
 		end := pos + int(l)
 		recs = append(recs, c10Rec{typ: typ, val: b[pos:end]})
 		pos = end
 		first, prev = false, typ
 	}
-	return true, recs
+	return c10StreamOK, recs
 }
 
-func c10StreamRun(huge bool, lmax int) {
+// reasons why the reference rejects a stream
+const (
+	c10StreamOK = iota
+	c10BadVarInt    // a type or length is not minimally encoded
+	c10BadTruncated // the stream ends inside a record
+	c10BadOrder     // types not strictly increasing
+	c10BadTooLarge  // length > 65535 on the p2p path
+	c10BadSize      // known fixed-size record with another length
+)
+
+func c10StreamRun(huge bool, lmax int, maxType bool) {
 	mode := vChoice("mode", 4)
 	var n int
 	if huge {
@@ -412,11 +428,20 @@ func c10StreamRun(huge bool, lmax int) {
 			n = lmax
 		}
 	}
+	if maxType {
+		// buffers that start with a 9-byte BigSize type (types >= 2^32,
+		// among them 2^64-1) followed by up to 4 more bytes
+		n = 10 + vChoice("tail", 4)
+	}
 	b := vBytes("b", n)
 	if huge {
 		vAssume(b[0] < 0xfd && b[1] == 0xff)
 	}
-	refOK, recs := c10RefStream(b, mode, huge)
+	if maxType {
+		vAssume(b[0] == 0xff)
+	}
+	why, recs := c10RefStream(b, mode, huge)
+	refOK := why == c10StreamOK
 
 	var (
 		u64 uint64 = 0x1122334455667788
@@ -449,6 +474,19 @@ func c10StreamRun(huge bool, lmax int) {
 	vAssert((err == nil) == refOK, "a TLV stream is accepted exactly when it is canonical (BOLT-1 reference)")
 	if err != nil {
 		vReach("reject")
+		// the decoder's documented error classes
+		switch why {
+		case c10BadVarInt:
+			vAssert(err == ErrVarIntNotCanonical, "non-minimal BigSize is ErrVarIntNotCanonical")
+		case c10BadOrder:
+			vReach("bad-order")
+			vAssert(err == ErrStreamNotCanonical, "types not strictly increasing is ErrStreamNotCanonical")
+		case c10BadTooLarge:
+			vReach("too-large")
+			vAssert(err == ErrRecordTooLarge, "length > 65535 on the p2p path is ErrRecordTooLarge")
+		case c10BadTruncated:
+			vAssert(err == io.ErrUnexpectedEOF, "a stream ending inside a record is io.ErrUnexpectedEOF")
+		}
 		return
 	}
 	vReach("accept")
@@ -532,12 +570,12 @@ func c10StreamRun(huge bool, lmax int) {
 // decoded values and parsed-type map are those of the reference parse, and
 // re-encoding reproduces the input. Declared lengths < 2^63.
 func VerifC10Stream() {
-	c10StreamRun(false, c10StreamQuick)
+	c10StreamRun(false, c10StreamQuick, false)
 }
 
 // VerifC10StreamDeep: the same with buffers up to c10StreamDeep bytes.
 func VerifC10StreamDeep() {
-	c10StreamRun(false, c10StreamDeep)
+	c10StreamRun(false, c10StreamDeep, false)
 }
 
 const (
@@ -549,5 +587,12 @@ const (
 // one-byte type and a 9-byte BigSize length (>= 2^32, lengths >= 2^63
 // admitted): the decoder converts the length to int64 for io.CopyN.
 func VerifC10StreamHugeLen() {
-	c10StreamRun(true, 10)
+	c10StreamRun(true, 10, false)
+}
+
+// VerifC10StreamMaxType: buffers of 10..13 bytes whose first record has a
+// 9-byte type (>= 2^32, including 2^64-1 after which no further record may
+// follow).
+func VerifC10StreamMaxType() {
+	c10StreamRun(false, 13, true)
 }
